@@ -47,7 +47,7 @@ def _rand_unimodular(rng, n, trail):
     return out
 
 
-def build_args(spec, n, trail, rng, variant, func):
+def build_args(spec, n, trail, rng, variant, func, int_dtype=False):
     """python arguments for the real helper + the arrays in the order of the translator's parameters"""
     from skfem.element import DiscreteField
     flat = []
@@ -58,6 +58,8 @@ def build_args(spec, n, trail, rng, variant, func):
         else:
             a = _rand_int(rng, (n,) * r + trail)
         flat.append((r, a))
+        if int_dtype:                       # integer-valued input handed over with an INTEGER dtype
+            a = a.astype(np.int64)
         if variant == 'jx':
             import jax.numpy as jnp
             return jnp.asarray(a)
@@ -157,7 +159,9 @@ def helper_correspondence(ctx, scen_by_variant, meta, rng):
                 if name.endswith('div_1d'):
                     n = 1
                     trail = (max(trail[0], 2),) + trail[1:]
-                args, flat = build_args(spec, n, trail, rng, variant, func)
+                as_int = bool(rng.integers(0, 2))
+                args, flat = build_args(spec, n, trail, rng, variant, func, int_dtype=as_int)
+                ctx.hist('helper_input_dtype', 'int64' if as_int else 'float64')
                 out = real_call(variant, func, args)
                 rr = meta[name][1]
                 if out.shape != (n,) * rr + trail:
@@ -324,8 +328,10 @@ def helper_oracle(ctx, rng):
                     res = {}
                     if variants in ('both', 'np'):
                         res['np'] = np.asarray(getattr(H, func)(*args), dtype=float)
+                        res['np-int64'] = np.asarray(getattr(H, func)(*[a.astype(np.int64) for a in args]), dtype=float)
                     if variants in ('both', 'jx'):
                         res['jx'] = np.asarray(getattr(JH, func)(*[jnp.asarray(a) for a in args]), dtype=float)
+                        res['jx-int64'] = np.asarray(getattr(JH, func)(*[jnp.asarray(a.astype(np.int64)) for a in args]), dtype=float)
                     ctx.count((name, n, tr, [a.tolist() for a in args]), nontrivial=n >= 2)
                     ctx.hist('oracle_helper', name)
                     for v, got in res.items():
@@ -350,7 +356,10 @@ def helper_oracle(ctx, rng):
         for tr in trails:
             for _ in range(reps):
                 Aex = _rand_unimodular(rng, n, tr)
+                goti = np.asarray(H.inv(Aex.astype(np.int64)), dtype=float)
                 got = np.asarray(H.inv(Aex), dtype=float)
+                if goti.shape != got.shape or not np.array_equal(goti, got):
+                    _report_helper(ctx, 'inv', 'inv', 'np-int64', n, tr, [Aex.astype(np.int64)], goti, got)
                 ref = np.moveaxis(np.linalg.inv(np.moveaxis(Aex, (0, 1), (-2, -1))), (-2, -1), (0, 1))
                 prod = (Aex[:, :, None] * got[None, :, :]).sum(1)
                 ctx.count(('inv', n, tr, Aex.tolist()))
